@@ -10,7 +10,7 @@ def dseed():
     """debug-profile stages explore other cases than the release stages"""
     return seed() + 1000003
 
-def miri_stage(r, sub, pid, shards=16, cases=3):
+def miri_stage(r, sub, pid, shards=32, cases=6):
     """Thorough tier only: a small shard of the same workload under the Miri interpreter."""
     reps, bads, skipped = run_vh_miri(sub, shards=shards, cases=cases)
     if skipped:
